@@ -56,20 +56,20 @@ def cases(tier, seed):
     big = tier == "thorough"
     for w in WITNESSES:
         yield {"kind": "witness", "name": w}
-    for k in range(1800 if big else 260):
+    for k in range(1800 if big else 200):
         yield {"kind": "otfad_low", "k": k}
-    for k in range(1400 if big else 200):
+    for k in range(1400 if big else 150):
         yield {"kind": "iee_low", "k": k}
-    for k in range(1800 if big else 260):
+    for k in range(1800 if big else 200):
         yield {"kind": "bee_low", "k": k}
     yield {"kind": "families"}
-    for k in range(12 if big else 3):
+    for k in range(12 if big else 2):
         for i in range(40):  # family index modulo the family list of the database under test
             yield {"kind": "otfad_cfg", "fam": i, "k": k}
             yield {"kind": "iee_cfg", "fam": i, "k": k}
-    for k in range(300 if big else 45):
+    for k in range(300 if big else 36):
         yield {"kind": "bee_cfg", "k": k}
-    for k in range(30 if big else 6):
+    for k in range(30 if big else 5):
         yield {"kind": "otfad_cli", "k": k}
         yield {"kind": "iee_cli", "k": k}
         yield {"kind": "bee_cli", "k": k}
@@ -408,7 +408,6 @@ def _otfad_judge_image(ctx, seen, ctxs, base, plain, stored, byte_swap, where, d
 
 
 def _run_otfad_low(ctx, lay, sigextra=()):
-    from spsdk.exceptions import SPSDKError
     from spsdk.utils.crypto.otfad import KeyBlob, Otfad
 
     rng = ctx.rng
@@ -1341,3 +1340,20 @@ def _run_bee_cfg(ctx, case, cli):
         ctx.ok(["bee", "cli" if cli else "cfg", _len_sig(length, BEE_UNIT), "aligned" if base % BEE_UNIT == 0 else "unaligned", sel,
                 _cov_sig([(s, e) for c in ctxs for s, e, _ in c.facs], base, length), sorted(binary)],
                sample={"base": hex(base), "len": length, "engine_selection": sel, "readback_equals_plaintext": True})
+
+
+def extra_coverage(events, counters):
+    """Distinct non-trivial signatures per (engine, path) and violations per mechanism (measured, for the evidence file)."""
+    per: dict = {}
+    mech: dict = {}
+    for ev in events:
+        if ev.get("t") == "ok" and "sig" in ev:
+            try:
+                sig = json.loads(ev["sig"])
+                key = f"{sig[0]}/{sig[1]}"
+            except (ValueError, IndexError, TypeError):
+                continue
+            per[key] = per.get(key, 0) + 1
+        elif ev.get("t") == "viol":
+            mech[ev["mech"]] = mech.get(ev["mech"], 0) + 1
+    return {"distinct_signatures_per_engine_and_path": per, "violations_per_mechanism": mech}
